@@ -32,7 +32,9 @@ package bip39
 //@ global czechMapping              guarded_by czechOnce              lang Czech
 //@ global portugueseMapping         guarded_by portugueseOnce         lang Portuguese
 
-//@ invariant mask11: val(last11BitsMask) == 2047 && val(first11BitsMask) == 2048
+// (the values of the two big.Int mask variables are global invariants too: the
+// verifier derives "val(g) == c" for every package-level *big.Int that the
+// package initialiser sets with big.NewInt(c), whatever the variable is called)
 
 // ---------------------------------------------------------------------------
 
@@ -95,81 +97,81 @@ package bip39
 //@   assigns chineseSimplifiedMapping
 //@   ensures [C02,C03,C08,C10,C13,C15] built: isInverse(chineseSimplifiedMapping, ChineseSimplified) && fresh(chineseSimplifiedMapping)
 //@   loop 1 assigns MDom[chineseSimplifiedMapping], MVal[chineseSimplifiedMapping]
-//@   loop 1 invariant range: -1 <= rangeindex && rangeindex < 2048 && fresh(chineseSimplifiedMapping)
-//@   loop 1 invariant prefix: prefixInverse(chineseSimplifiedMapping, ChineseSimplified, rangeindex+1)
-//@   loop 1 decreases 2048 - rangeindex
+//@   loop 1 invariant range: 0 <= iter && iter <= 2048 && fresh(chineseSimplifiedMapping)
+//@   loop 1 invariant prefix: prefixInverse(chineseSimplifiedMapping, ChineseSimplified, iter)
+//@   loop 1 decreases 2048 - iter
 
 //@ func Language.mapping$writes(chineseTraditionalMapping)
 //@   assigns chineseTraditionalMapping
 //@   ensures [C02,C03,C08,C10,C13,C15] built: isInverse(chineseTraditionalMapping, ChineseTraditional) && fresh(chineseTraditionalMapping)
 //@   loop 1 assigns MDom[chineseTraditionalMapping], MVal[chineseTraditionalMapping]
-//@   loop 1 invariant range: -1 <= rangeindex && rangeindex < 2048 && fresh(chineseTraditionalMapping)
-//@   loop 1 invariant prefix: prefixInverse(chineseTraditionalMapping, ChineseTraditional, rangeindex+1)
-//@   loop 1 decreases 2048 - rangeindex
+//@   loop 1 invariant range: 0 <= iter && iter <= 2048 && fresh(chineseTraditionalMapping)
+//@   loop 1 invariant prefix: prefixInverse(chineseTraditionalMapping, ChineseTraditional, iter)
+//@   loop 1 decreases 2048 - iter
 
 //@ func Language.mapping$writes(englishMapping)
 //@   assigns englishMapping
 //@   ensures [C02,C03,C08,C10,C13,C15] built: isInverse(englishMapping, English) && fresh(englishMapping)
 //@   loop 1 assigns MDom[englishMapping], MVal[englishMapping]
-//@   loop 1 invariant range: -1 <= rangeindex && rangeindex < 2048 && fresh(englishMapping)
-//@   loop 1 invariant prefix: prefixInverse(englishMapping, English, rangeindex+1)
-//@   loop 1 decreases 2048 - rangeindex
+//@   loop 1 invariant range: 0 <= iter && iter <= 2048 && fresh(englishMapping)
+//@   loop 1 invariant prefix: prefixInverse(englishMapping, English, iter)
+//@   loop 1 decreases 2048 - iter
 
 //@ func Language.mapping$writes(frenchMapping)
 //@   assigns frenchMapping
 //@   ensures [C02,C03,C08,C10,C13,C15] built: isInverse(frenchMapping, French) && fresh(frenchMapping)
 //@   loop 1 assigns MDom[frenchMapping], MVal[frenchMapping]
-//@   loop 1 invariant range: -1 <= rangeindex && rangeindex < 2048 && fresh(frenchMapping)
-//@   loop 1 invariant prefix: prefixInverse(frenchMapping, French, rangeindex+1)
-//@   loop 1 decreases 2048 - rangeindex
+//@   loop 1 invariant range: 0 <= iter && iter <= 2048 && fresh(frenchMapping)
+//@   loop 1 invariant prefix: prefixInverse(frenchMapping, French, iter)
+//@   loop 1 decreases 2048 - iter
 
 //@ func Language.mapping$writes(italianMapping)
 //@   assigns italianMapping
 //@   ensures [C02,C03,C08,C10,C13,C15] built: isInverse(italianMapping, Italian) && fresh(italianMapping)
 //@   loop 1 assigns MDom[italianMapping], MVal[italianMapping]
-//@   loop 1 invariant range: -1 <= rangeindex && rangeindex < 2048 && fresh(italianMapping)
-//@   loop 1 invariant prefix: prefixInverse(italianMapping, Italian, rangeindex+1)
-//@   loop 1 decreases 2048 - rangeindex
+//@   loop 1 invariant range: 0 <= iter && iter <= 2048 && fresh(italianMapping)
+//@   loop 1 invariant prefix: prefixInverse(italianMapping, Italian, iter)
+//@   loop 1 decreases 2048 - iter
 
 //@ func Language.mapping$writes(japaneseMapping)
 //@   assigns japaneseMapping
 //@   ensures [C02,C03,C08,C10,C13,C15] built: isInverse(japaneseMapping, Japanese) && fresh(japaneseMapping)
 //@   loop 1 assigns MDom[japaneseMapping], MVal[japaneseMapping]
-//@   loop 1 invariant range: -1 <= rangeindex && rangeindex < 2048 && fresh(japaneseMapping)
-//@   loop 1 invariant prefix: prefixInverse(japaneseMapping, Japanese, rangeindex+1)
-//@   loop 1 decreases 2048 - rangeindex
+//@   loop 1 invariant range: 0 <= iter && iter <= 2048 && fresh(japaneseMapping)
+//@   loop 1 invariant prefix: prefixInverse(japaneseMapping, Japanese, iter)
+//@   loop 1 decreases 2048 - iter
 
 //@ func Language.mapping$writes(spanishMapping)
 //@   assigns spanishMapping
 //@   ensures [C02,C03,C08,C10,C13,C15] built: isInverse(spanishMapping, Spanish) && fresh(spanishMapping)
 //@   loop 1 assigns MDom[spanishMapping], MVal[spanishMapping]
-//@   loop 1 invariant range: -1 <= rangeindex && rangeindex < 2048 && fresh(spanishMapping)
-//@   loop 1 invariant prefix: prefixInverse(spanishMapping, Spanish, rangeindex+1)
-//@   loop 1 decreases 2048 - rangeindex
+//@   loop 1 invariant range: 0 <= iter && iter <= 2048 && fresh(spanishMapping)
+//@   loop 1 invariant prefix: prefixInverse(spanishMapping, Spanish, iter)
+//@   loop 1 decreases 2048 - iter
 
 //@ func Language.mapping$writes(koreanMapping)
 //@   assigns koreanMapping
 //@   ensures [C02,C03,C08,C10,C13,C15] built: isInverse(koreanMapping, Korean) && fresh(koreanMapping)
 //@   loop 1 assigns MDom[koreanMapping], MVal[koreanMapping]
-//@   loop 1 invariant range: -1 <= rangeindex && rangeindex < 2048 && fresh(koreanMapping)
-//@   loop 1 invariant prefix: prefixInverse(koreanMapping, Korean, rangeindex+1)
-//@   loop 1 decreases 2048 - rangeindex
+//@   loop 1 invariant range: 0 <= iter && iter <= 2048 && fresh(koreanMapping)
+//@   loop 1 invariant prefix: prefixInverse(koreanMapping, Korean, iter)
+//@   loop 1 decreases 2048 - iter
 
 //@ func Language.mapping$writes(czechMapping)
 //@   assigns czechMapping
 //@   ensures [C02,C03,C08,C10,C13,C15] built: isInverse(czechMapping, Czech) && fresh(czechMapping)
 //@   loop 1 assigns MDom[czechMapping], MVal[czechMapping]
-//@   loop 1 invariant range: -1 <= rangeindex && rangeindex < 2048 && fresh(czechMapping)
-//@   loop 1 invariant prefix: prefixInverse(czechMapping, Czech, rangeindex+1)
-//@   loop 1 decreases 2048 - rangeindex
+//@   loop 1 invariant range: 0 <= iter && iter <= 2048 && fresh(czechMapping)
+//@   loop 1 invariant prefix: prefixInverse(czechMapping, Czech, iter)
+//@   loop 1 decreases 2048 - iter
 
 //@ func Language.mapping$writes(portugueseMapping)
 //@   assigns portugueseMapping
 //@   ensures [C02,C03,C08,C10,C13,C15] built: isInverse(portugueseMapping, Portuguese) && fresh(portugueseMapping)
 //@   loop 1 assigns MDom[portugueseMapping], MVal[portugueseMapping]
-//@   loop 1 invariant range: -1 <= rangeindex && rangeindex < 2048 && fresh(portugueseMapping)
-//@   loop 1 invariant prefix: prefixInverse(portugueseMapping, Portuguese, rangeindex+1)
-//@   loop 1 decreases 2048 - rangeindex
+//@   loop 1 invariant range: 0 <= iter && iter <= 2048 && fresh(portugueseMapping)
+//@   loop 1 invariant prefix: prefixInverse(portugueseMapping, Portuguese, iter)
+//@   loop 1 decreases 2048 - iter
 
 //@ func Language.mapping
 //@   assigns mappings
@@ -194,13 +196,13 @@ package bip39
 //@   ensures [C02,C03,C08,C10,C13,C15] F4: implies(validCount(n) && allKnown(t, lg, n) && checksumOK(t, lg, n), result == nil)
 //@   ensures [C03] S: implies(result == nil, validTokens(fields(nfkd(mnemonic)), lg))
 //@   loop 1 assigns BigVal[entBig]
-//@   loop 1 invariant range: -1 <= rangeindex && rangeindex < wordCount && wordCount == n && validCount(n) && len(wordList) == n
+//@   loop 1 invariant range: 0 <= iter && iter <= wordCount && wordCount == n && validCount(n) && len(wordList) == n
 //@   loop 1 invariant tokens: seq(wordList) == t && off(wordList) == 0
 //@   loop 1 invariant map: fresh(entBig) && (isInverse(mapping, lg) || (!supported(lg) && mapping == nil))
-//@   loop 1 invariant known: forall(j, 0, rangeindex+1, widx(lg, sat(t, j)) >= 0)
-//@   loop 1 invariant value: val(entBig) == acc(t, lg, n, rangeindex+1)
-//@   loop 1 unfold acc(t, lg, n, rangeindex+2)
-//@   loop 1 decreases wordCount - rangeindex
+//@   loop 1 invariant known: forall(j, 0, iter, widx(lg, sat(t, j)) >= 0)
+//@   loop 1 invariant value: val(entBig) == acc(t, lg, n, iter)
+//@   loop 1 unfold acc(t, lg, n, iter+1)
+//@   loop 1 decreases wordCount - iter
 //@   split wordCount in {12,15,18,21,24} at loop 1 exit unfold acc(t, lg, wordCount, wordCount)
 
 //@ func IsMnemonicValid
